@@ -43,7 +43,7 @@ from vf.kit import mem
 PROPERTY = "C09"
 LEVEL = "exploration"
 ENGINE = "E1-SEQ"
-SHARDS = {"quick": 4, "thorough": 13}
+SHARDS = {"quick": 8, "thorough": 16}
 RULE = (
     "server version in {none} U G^3 (G={0,1,10} quick, {0,1,2,10} thorough) x client metadata value in G^3 canonical "
     "versions U a malformed corpus of templates instantiated on the server's own version (so a lenient parser would "
